@@ -12,5 +12,7 @@ CONSTANTS
   Scales <- AllScales
   ProdScales <- AllProdScales
   FirstSeed = TRUE
-INVARIANTS RegOneToOne UnknownIsError NameRoundTrip ScalarInRange ScalarMonotone ScalarShape ModuleDefinition
+  FreshMaps = TRUE
+INVARIANTS FactoryIndependent RegOneToOne UnknownIsError NameRoundTrip ScalarInRange ScalarMonotone ScalarShape ModuleDefinition
+PROPERTY FactoryStepLaw
 CHECK_DEADLOCK FALSE
